@@ -7,7 +7,7 @@ Only clauses that are *necessary* for the dependent property are listed.
 
 DEPENDS = {
     "C01": {"C02": (["R3"], "lazy parse must run before extra/offset change (round trip with extra header bytes)")},
-    "C02": {"C01": (["R1", "R2", "R3", "R4", "R5", "R6", "R7", "R8"],
+    "C02": {"C01": (["R1", "R2", "R3", "R4", "R5", "R6", "R7", "R8", "R11"],
                     "a parsed body is re-encoded through the codec: pass-through fidelity needs codec agreement"),
             "C03": (["R1", "R2"], "canonical zero-coding is what makes re-encoding byte-identical")},
     "C03": {},
@@ -16,17 +16,19 @@ DEPENDS = {
     "C05": {"C01": (["R4"], "acks are carried by the header flag / trailer the codec frames")},
     "C06": {"C01": (["R4", "R6", "R7", "R8"], "a datagram that cannot be framed/parsed cannot be forwarded intact"),
             "C02": (["R1", "R2"], "forwarded content intact = raw body pass-through, also after a failed parse"),
-            "C07": (["R3", "R5"], "exactly once on the wire")},
+            "C07": (["R3", "R5"], "exactly once on the wire"),
+            "C05": (["R8"], "a datagram can only be forwarded on the region's circuit: the reference must not be "
+                            "released or replaced while the region is live")},
     "C07": {"C06": (["R4"], "the final forward is guarded by nothing but the addon/validity verdicts"),
             "C19": (["R6"], "one subscriber's (un)subscription must not skip another subscriber")},
-    "C08": {},
-    "C09": {"C08": (["R1", "R2", "R3", "R6", "R7", "R8"], "subfield serializers are built from the combinators"),
+    "C08": {"C09": (["R6"], "round trip in plain-data mode needs the pod flag to reach every delegated decoder")},
+    "C09": {"C08": (["R1", "R2", "R3", "R6", "R7", "R8", "R9"], "subfield serializers are built from the combinators"),
             "C10": (["R1", "R2", "R3", "R4"], "quantised members of subfield templates")},
     "C10": {},
     "C11": {"C09": (["R2", "R4", "R5", "R6"], "beautified text goes through the subfield serializers (pod form)"),
             "C10": (["R1", "R3", "R4"], "pretty-printed quantised / fixed-point subfields must re-encode exactly")},
     "C12": {"C18": (["R6"], "LLSDMessageSerializer ends in Message.from_dict / to_dict: key agreement")},
-    "C13": {"C08": (["R1", "R2", "R3", "R6", "R7", "R8"], "both decoders share the combinator sub-templates")},
+    "C13": {"C08": (["R1", "R2", "R3", "R6", "R7", "R8", "R9"], "both decoders share the combinator sub-templates")},
     "C14": {"C13": (["R1", "R2"], "the tracker consumes the hand-written compressed decoder"),
             "C07": (["R2"], "handlers run under Event.notify's isolation")},
     "C15": {"C07": (["R8"], "a stale taking subscriber on http_message_handler take()s flows that nobody resumes"),
@@ -36,6 +38,6 @@ DEPENDS = {
     "C18": {"C12": (["R1"], "logged EQ events are decoded by LLSDMessageSerializer without mutating the retained event")},
     "C19": {"C01": (["R4", "R6", "R8"], "a packet whose header cannot be parsed is neither acked nor delivered"),
             "C07": (["R2"], "delivery to each subscriber needs Event.notify's isolation")},
-    "C20": {"C08": (["R1", "R2", "R3", "R8"], "mesh and animation codecs are built from the combinators"),
+    "C20": {"C08": (["R1", "R2", "R3", "R8", "R9"], "mesh and animation codecs are built from the combinators"),
             "C12": (["R2", "R3", "R5"], "inventory LLSD flavours go through the LLSD codecs")},
 }
